@@ -62,3 +62,14 @@ Definition ops_manip (op : string) (args : list val) : option (res val) :=
   | "parse_num", [VStr s] => Some (ok (match canon_num s with Some (m, e) => VList [VInt m; VInt e] | None => VNone end))
   | _, _ => None
   end.
+
+From BSE Require Import Model.Pipeline.
+Definition dec_flags (v : val) : res (list (string * bool)) :=
+  do d <- as_dict v; mapM (fun kv => do b <- as_bool (snd kv); ok (fst kv, b)) d.
+Definition ops_pipeline (op : string) (args : list val) : option (res val) :=
+  match op, args with
+  | "get_basis_options", [b; fl] =>
+      Some (do bb <- dec_basis b; do f <- dec_flags fl;
+            do r <- run_get_basis_options {| o_flags := f; o_counts := []; o_aux := 0 |} bb; ok (enc_basis r))
+  | _, _ => None
+  end.
